@@ -52,6 +52,12 @@ type CheckCfg struct {
 	Overlays    map[string]string  `json:"src_overlays"`
 	HarnessFrom string `json:"harness_from"` // take the harness .go files from another property's directory
 	ValidateWitnesses int `json:"validate_witnesses"`
+	Monitor   []string `json:"monitor"` // harnesses whose assertions read engine-side monitors (lock-set / write-set): a counterexample cannot be replayed by the inert native runtime and is confirmed by the native_confirm test instead
+	NativeConfirm *struct {
+		File string `json:"file"`
+		Test string `json:"test"`
+		Race bool   `json:"race"`
+	} `json:"native_confirm"`
 	Inductive []string `json:"inductive"` // harnesses that start from an assumed invariant: a failure is a CTI, reported only as a note // repo-relative file -> sed-like "old=>new" one-line source overlay
 }
 
@@ -270,7 +276,12 @@ func cmdCheck(args []string) int {
 				violations++
 				continue
 			}
-			out, verdict := nativeReplay(h, c, allH, name, rp, extra)
+			var out, verdict string
+			if contains(c.Monitor, name) && c.NativeConfirm != nil {
+				out, verdict = nativeConfirm(prop, c, extra)
+			} else {
+				out, verdict = nativeReplay(h, c, allH, name, rp, extra)
+			}
 			switch verdict {
 			case "FAIL", "PANIC":
 				tracesValidated++
@@ -279,7 +290,7 @@ func cmdCheck(args []string) int {
 				fmt.Printf("  violation confirmed natively (%s): %s :: %s\n", verdict, v.Msg, summarize(v))
 			default:
 				engineMismatch++
-				fmt.Printf("  ENGINE-MISMATCH: %s not reproduced natively (%s): %s\n    %s\n", v.Msg, verdict, summarize(v), lastLines(out, 6))
+				fmt.Printf("  ENGINE-MISMATCH: %s not reproduced natively (%s): %s %v\n    %s\n", v.Msg, verdict, summarize(v), v.Tags, lastLines(out, 3))
 			}
 		}
 	}
@@ -714,3 +725,58 @@ type multiFlag []string
 
 func (m *multiFlag) String() string     { return strings.Join(*m, ",") }
 func (m *multiFlag) Set(v string) error { *m = append(*m, v); return nil }
+
+var confirmCache = map[string][2]string{}
+
+// nativeConfirm runs the property's native confirmation test (optionally under the race detector)
+// against /repo's working tree: FAIL if it fails or reports a data race.
+func nativeConfirm(prop string, c *CheckCfg, extra map[string][]byte) (string, string) {
+	if r, ok := confirmCache[prop]; ok {
+		return r[0], r[1]
+	}
+	tmp, err := os.MkdirTemp("", "vxconfirm")
+	if err != nil {
+		return err.Error(), "ERROR"
+	}
+	defer os.RemoveAll(tmp)
+	src, err := os.ReadFile(filepath.Join(verifDir, "harness", prop, c.NativeConfirm.File))
+	if err != nil {
+		return err.Error(), "ERROR"
+	}
+	repl := map[string]string{}
+	real := filepath.Join(tmp, "zz_vx_confirm_test.go")
+	os.WriteFile(real, src, 0o644)
+	repl[filepath.Join("/repo", c.Dir, "zz_vx_confirm_test.go")] = real
+	i := 0
+	for virt, data := range extra {
+		rp := filepath.Join(tmp, fmt.Sprintf("ov%d.go", i))
+		i++
+		os.WriteFile(rp, data, 0o644)
+		repl[virt] = rp
+	}
+	oj, _ := json.Marshal(map[string]interface{}{"Replace": repl})
+	ovPath := filepath.Join(tmp, "overlay.json")
+	os.WriteFile(ovPath, oj, 0o644)
+	args := []string{"300", "go", "test", "-vet=off", "-count=1", "-run", "^" + c.NativeConfirm.Test + "$", "-overlay", ovPath}
+	if c.NativeConfirm.Race {
+		args = append(args, "-race")
+	}
+	args = append(args, "./"+c.Dir)
+	cmd := exec.Command("timeout", args...)
+	cmd.Dir = "/repo"
+	cmd.Env = append(os.Environ(), "GOFLAGS=-mod=mod", "GOPROXY=off", "GOSUMDB=off", "GOTOOLCHAIN=local")
+	outb, err := cmd.CombinedOutput()
+	out := string(outb)
+	verdict := "PASS"
+	if err != nil || strings.Contains(out, "DATA RACE") || strings.Contains(out, "VX-NATIVE") {
+		verdict = "FAIL"
+	}
+	var keep []string
+	for _, l := range strings.Split(out, "\n") {
+		if strings.Contains(l, "DATA RACE") || strings.Contains(l, "VX-NATIVE") || strings.Contains(l, ".go:") && len(keep) < 12 {
+			keep = append(keep, strings.TrimSpace(l))
+		}
+	}
+	confirmCache[prop] = [2]string{strings.Join(keep, "\n"), verdict}
+	return strings.Join(keep, "\n"), verdict
+}
